@@ -143,6 +143,105 @@ def rule_paren_safe(ctx, rep):
         raise AnalysisError(f"only {n} fresh non-atomic expression returns found in refactoring codemods")
 
 
+NONATOMIC_HOOKS = {"leave_" + k for k in NONATOMIC}
+
+
+def _is_child_of_node(ctx, tm, fn: FuncInfo, e: ast.expr, depth: int = 3) -> bool:
+    """Does `e` denote a sub-expression of the node the hook is replacing (a child of original_node / updated_node)?"""
+    if depth <= 0:
+        return False
+    ps = fn.positional_params()
+    node_params = set(ps[1:3]) if fn.name.startswith("leave_") and len(ps) >= 3 else set()
+    if isinstance(e, ast.Attribute):
+        root = e
+        while isinstance(root, (ast.Attribute, ast.Subscript)):
+            root = root.value
+        if isinstance(root, ast.Name):
+            if root.id in node_params:
+                return True
+            return _is_child_of_node(ctx, tm, fn, root, depth)
+        return False
+    if isinstance(e, ast.Subscript):
+        return _is_child_of_node(ctx, tm, fn, e.value, depth)
+    if isinstance(e, ast.Name):
+        if e.id in node_params:
+            return False  # the node itself
+        # match capture:  match <child-or-node chain>: case cst.X(attr=cst.Y() as name)
+        for mt in walk_no_nested(fn.node):
+            if isinstance(mt, ast.Match):
+                subj = mt.subject
+                subj_is_node = (isinstance(subj, ast.Name) and subj.id in node_params) or _is_child_of_node(ctx, tm, fn, subj, depth - 1)
+                if not subj_is_node:
+                    continue
+                for cs in mt.cases:
+                    top = cs.pattern
+                    for pat in ast.walk(cs.pattern):
+                        if isinstance(pat, ast.MatchAs) and pat.name == e.id:
+                            if pat is top and isinstance(subj, ast.Name) and subj.id in node_params:
+                                continue  # a capture of the node itself
+                            return True
+        sa = ctx.resolver(fn).single_assignments()
+        if e.id in sa and e.id not in fn.params():
+            return _is_child_of_node(ctx, tm, fn, sa[e.id], depth - 1)
+        if e.id in fn.params() and not fn.name.startswith("leave_"):
+            # a helper's parameter: a child if every caller in the class passes a child
+            idx_all = fn.positional_params()
+            sites = []
+            for _, m in tm.all_methods():
+                for c in walk_no_nested(m.node):
+                    if isinstance(c, ast.Call) and isinstance(c.func, ast.Attribute) and c.func.attr == fn.name and isinstance(c.func.value, ast.Name) and c.func.value.id == "self":
+                        from ..model import bind_args
+                        a = bind_args(c, fn, True).get(e.id)
+                        if a is not None:
+                            sites.append((m, a))
+            return bool(sites) and all(_is_child_of_node(ctx, tm, m, a, depth - 1) for m, a in sites)
+    return False
+
+
+def rule_paren_child(ctx, rep):
+    """second clause of R-PAREN-SAFE: a non-atomic node replaced by one of its own sub-expressions"""
+    reg = ctx.registry
+    seen = set()
+    n = 0
+    for cid in REFACTORING:
+        cm = next((c for c in reg.codemods if c.id == cid), None)
+        if cm is None:
+            continue
+        for tq in cm.transformers:
+            if tq not in ctx.prog.classes:
+                continue
+            tm = ctx.tmodel(tq)
+            hooks = {m.name for _, m in tm.all_methods() if m.name in NONATOMIC_HOOKS}
+            if not hooks:
+                continue
+            for e in tm.effects():
+                if e.kind != "return-change" or (e.method.qname, e.node.lineno) in seen:
+                    continue
+                seen.add((e.method.qname, e.node.lineno))
+                if e.method.name.startswith("leave_") and e.method.name not in NONATOMIC_HOOKS:
+                    continue
+                alts = [e.node.value]
+                k = 0
+                while k < len(alts):
+                    if isinstance(alts[k], ast.IfExp):
+                        alts += [alts[k].body, alts[k].orelse]
+                    k += 1
+                for alt in alts:
+                    if isinstance(alt, ast.IfExp) or alt is None:
+                        continue
+                    base, kws = alt, set()
+                    if isinstance(alt, ast.Call) and last_attr(alt.func) == "with_changes" and isinstance(alt.func, ast.Attribute):
+                        base, kws = alt.func.value, {k_.arg for k_ in alt.keywords}
+                    if not _is_child_of_node(ctx, tm, e.method, base):
+                        continue
+                    n += 1
+                    ok = {"lpar", "rpar"} <= kws
+                    rep.check("R-PAREN-SAFE", tq, e.method.loc(alt), ok, f"{e.method.name}:child:{unparse(base)[:30]}",
+                              f"`return {unparse(alt)[:60]}` puts a sub-expression in the place of the (possibly parenthesised) node without taking over the "
+                              "node's lpar/rpar: `(not x + y is False) * 3` becomes `x + y * 3`, `total + (not got == want)` becomes `total + got != want`")
+    rep.instance("R-PAREN-SAFE", "child-returns", "src/core_codemods", True, detail=f"{n} returns of a sub-expression in non-atomic expression hooks examined")
+
+
 def _cls_tail(e) -> str | None:
     if isinstance(e, ast.Call):
         e = e.func
@@ -494,6 +593,7 @@ def check(ctx, rep):
     )
     rule_boolop_or(ctx, rep)
     rule_paren_safe(ctx, rep)
+    rule_paren_child(ctx, rep)
     rule_args(ctx, rep)
     rule_invert_table(ctx, rep)
     from .c02 import rule_import_removal_owner, rule_nodetype
